@@ -15,8 +15,8 @@ import (
 	"github.com/strangelove-ventures/poa"
 )
 
-// UpdateValidatorSet updates a validator to their new share and consensus power, then updates the total power of the set.
-func (k Keeper) UpdateValidatorSet(ctx context.Context, newShares, newConsensusPower int64, val stakingtypes.Validator, valAddr sdk.ValAddress) error {
+// UpdateValidatorSet updates a validator to their new share and consensus power, then updates the bonded pool.
+func (k Keeper) UpdateValidatorSet(ctx context.Context, newShares, _ int64, val stakingtypes.Validator, valAddr sdk.ValAddress) error {
 	newShare := sdkmath.LegacyNewDec(newShares)
 	newShareInt := sdkmath.NewIntFromUint64(uint64(newShares))
 
@@ -38,11 +38,9 @@ func (k Keeper) UpdateValidatorSet(ctx context.Context, newShares, newConsensusP
 		return err
 	}
 
-	if err := k.stakingKeeper.SetLastValidatorPower(ctx, valAddr, newConsensusPower); err != nil {
-		return err
-	}
-
-	return k.updateTotalPower(ctx)
+	// The last validator power and the last total power are x/staking's record of the set it last sent to CometBFT.
+	// Its EndBlocker compares the power index against them to build the validator updates and then updates them itself.
+	return k.UpdateBondedPoolPower(ctx)
 }
 
 // SetPower sets a validator's self token delegation and the consensus power for the network.
@@ -77,8 +75,13 @@ func (k Keeper) SetPOAPower(ctx context.Context, valOpBech32 string, newShares i
 		return val, fmt.Errorf("current power (%d) is the same as the new power (%d) for %s", currentPower, newBFTConsensusPower, valOpBech32)
 	}
 
+	// The power index is keyed by the validator's tokens. Remove the entry for the current amount before changing it, so
+	// that the validator is indexed exactly once and x/staking's EndBlocker emits exactly one update for it.
+	if err := k.stakingKeeper.DeleteValidatorByPowerIndex(ctx, val); err != nil {
+		return stakingtypes.Validator{}, err
+	}
+
 	// When we SetValidatorByPowerIndex, the Tokens are used to get the shares of power for CometBFT consensus (voting_power).
-	// We don't `k.stakingKeeper.SetValidator` since we only use this for CometBFT consensus power.
 	val.Tokens = sdkmath.NewIntFromUint64(uint64(newShares))
 
 	// slash all the validator's tokens (100%)
@@ -97,10 +100,8 @@ func (k Keeper) SetPOAPower(ctx context.Context, valOpBech32 string, newShares i
 		if _, err := k.stakingKeeper.Slash(ctx, sdk.GetConsAddress(pk), height, normalizedToken.Int64(), sdkmath.LegacyOneDec()); err != nil {
 			return stakingtypes.Validator{}, err
 		}
-		// TODO:
-		if err := k.stakingKeeper.DeleteLastValidatorPower(ctx, valAddr); err != nil {
-			return stakingtypes.Validator{}, err
-		}
+		// The slash re-indexed the validator at zero power. Without an index entry x/staking's EndBlocker finds it only in
+		// the last validator set, unbonds it and sends the zero-power update to CometBFT.
 		if err := k.stakingKeeper.DeleteValidatorByPowerIndex(ctx, val); err != nil {
 			return stakingtypes.Validator{}, err
 		}
@@ -108,18 +109,8 @@ func (k Keeper) SetPOAPower(ctx context.Context, valOpBech32 string, newShares i
 			return stakingtypes.Validator{}, err
 		}
 	} else {
-		// Sets the new consensus power for the validator (this is executed in the x/staking ApplyAndReturnValidatorUpdates method)
-		if err := k.GetStakingKeeper().SetLastValidatorPower(ctx, valAddr, newBFTConsensusPower); err != nil {
-			return stakingtypes.Validator{}, err
-		}
+		// Index the validator at its new power (the update is emitted by the x/staking ApplyAndReturnValidatorSetUpdates method)
 		if err := k.GetStakingKeeper().SetValidatorByPowerIndex(ctx, val); err != nil {
-			return stakingtypes.Validator{}, err
-		}
-
-		// A cache to handle updated validators power. Once set, the next begin block will remove it from the cache.
-		// This allows us to Delete the validator index on the staking side, and ensures power updates do not persist over many blocks.
-		// This multi block persistence would break ABCI updates via x/staking if the validator's power is updated again, or removed.
-		if err := k.UpdatedValidatorsCache.Set(ctx, val.OperatorAddress); err != nil {
 			return stakingtypes.Validator{}, err
 		}
 	}
@@ -208,27 +199,4 @@ func (k Keeper) setValidatorInternals(ctx context.Context, val stakingtypes.Vali
 	}
 
 	return k.stakingKeeper.Hooks().AfterValidatorCreated(ctx, valAddr)
-}
-
-// UpdateTotalPower sets the new LastTotalPower for the consensus power params.
-// It is reduced by the power reduction fraction (default: 10^6) to fit within BFT consensus limits.
-func (k Keeper) updateTotalPower(ctx context.Context) error {
-	allVals, err := k.stakingKeeper.GetAllValidators(ctx)
-	if err != nil {
-		return err
-	}
-
-	// summation of all validator tokens
-	allTokens := sdkmath.ZeroInt()
-	for _, val := range allVals {
-		allTokens = allTokens.Add(val.Tokens)
-	}
-
-	// all tokens / 10^6 = new total power
-	totalConsenusPower := allTokens.Quo(k.stakingKeeper.PowerReduction(ctx))
-	if err := k.stakingKeeper.SetLastTotalPower(ctx, totalConsenusPower); err != nil {
-		return err
-	}
-
-	return k.UpdateBondedPoolPower(ctx)
 }
